@@ -380,7 +380,7 @@ func checkListener(c *Ctx, ce *chanEngine) {
 		}
 		closesLn := false
 		eachInstr(drainFn, func(_ *ssa.BasicBlock, _ int, in ssa.Instruction) {
-			if cc := callOf(in); cc != nil && cc.IsInvoke() && cc.Method.Name() == "Close" && derives(cc.Value, func(v ssa.Value) bool { f, _ := fieldAddr(v); return f == ln }) {
+			if cc := callOf(in); cc != nil && cc.IsInvoke() && cc.Method.Name() == "Close" && derivesIP(cc.Value, func(v ssa.Value) bool { f, _ := fieldAddr(v); return f == ln }, 2) {
 				closesLn = true
 			}
 		})
